@@ -3,7 +3,10 @@ package drv
 import (
 	"bytes"
 	"fmt"
+	pr "github.com/benoitkugler/webrender/css/properties"
+	"github.com/benoitkugler/webrender/text/hyphen"
 	"io"
+	"strings"
 	"sync"
 
 	"github.com/benoitkugler/webrender/html/boxes"
@@ -73,6 +76,18 @@ func (o *Opts) Fetcher() utils.UrlFetcher {
 	return func(url string) (utils.RemoteRessource, error) {
 		if c, ok := o.Files[url]; ok {
 			mt := o.MimeType[url]
+			if mt == "" {
+				switch {
+				case strings.HasSuffix(url, ".css"):
+					mt = "text/css"
+				case strings.HasSuffix(url, ".svg"):
+					mt = "image/svg+xml"
+				case strings.HasSuffix(url, ".png"):
+					mt = "image/png"
+				case strings.HasSuffix(url, ".html"):
+					mt = "text/html"
+				}
+			}
 			return utils.RemoteRessource{Content: bytes.NewReader([]byte(c)), MimeType: mt, RedirectedUrl: url}, nil
 		}
 		if len(url) > 5 && (url[:5] == "data:" || url[:5] == "DATA:") {
@@ -176,4 +191,34 @@ func walk(b boxes.Box, d int, f func(b boxes.Box, depth int) bool) {
 	for _, c := range b.Box().Children {
 		walk(c, d+1, f)
 	}
+}
+
+// TextCtx is a minimal text.TextLayoutContext.
+type TextCtx struct {
+	FC     text.FontConfiguration
+	hyphen map[text.HyphenDictKey]hyphen.Hyphener
+	strut  map[text.StrutLayoutKey][2]pr.Float
+}
+
+func NewTextCtx(fc text.FontConfiguration) *TextCtx {
+	return &TextCtx{FC: fc, hyphen: map[text.HyphenDictKey]hyphen.Hyphener{}, strut: map[text.StrutLayoutKey][2]pr.Float{}}
+}
+func (t *TextCtx) Fonts() text.FontConfiguration                          { return t.FC }
+func (t *TextCtx) HyphenCache() map[text.HyphenDictKey]hyphen.Hyphener    { return t.hyphen }
+func (t *TextCtx) StrutLayoutsCache() map[text.StrutLayoutKey][2]pr.Float { return t.strut }
+
+// Styles runs parse + cascade and returns the style accessor.
+func Styles(htmlText string, o *Opts) (*tree.HTML, *tree.StyleFor, error) {
+	h, err := Parse(htmlText, o)
+	if err != nil {
+		return nil, nil, err
+	}
+	ss, err := o.sheets()
+	if err != nil {
+		return nil, nil, err
+	}
+	var pageRules []tree.PageRule
+	tc := tree.NewTargetCollector()
+	sf := tree.GetAllComputedStyles(h, ss, o.Hints, o.fc(), nil, &pageRules, &tc, false, NewTextCtx(o.fc()))
+	return h, sf, nil
 }
